@@ -10,11 +10,12 @@
   * a `{% block b %}` placeholder is filled with the most-derived definition of `b` in the chain
     ("since the child template doesn't define the footer block, the value from the parent template is used").
   * `super()` inside the i-th definition renders the next less-derived one; `super.super()` skips a level; absent
-    → undefined.  `self.b()` renders what the placeholder `b` renders.
+    → undefined.  `self.b()` renders what an unscoped placeholder `b` renders.
   * a block does not see loop variables of the place where it stands unless the placeholder is `scoped`
     ("When overriding a block, the scoped modifier does not have to be provided").
-  * a `required` block "must be overridden at some point … cannot be rendered directly": a placeholder whose
-    most-derived definition is a `required` declaration fails with TemplateRuntimeError.
+  * a `required` block "must be overridden at some point … cannot be rendered directly": a placeholder or a
+    `self.b()` whose most-derived definition is a `required` declaration fails with TemplateRuntimeError; `super()`
+    from an override may pass through it (it renders its whitespace).
   Core Lean only.
 -/
 import JinjaV.Model.Inherit
@@ -45,7 +46,10 @@ def piece (chain : List Tpl) (callee : Callee) (ctx : Vars) (cur : Option (Name 
     match cur with
     | none => .error .undefined
     | some (b, i) => if i + 1 + k < (defs chain b).length then callee ctx b (i + 1 + k) else .error .undefined
-  | .selfCall b => if (defs chain b).isEmpty then .error .undefined else callee ctx b 0
+  | .selfCall b =>
+    match (defs chain b).head? with
+    | none => .error .undefined
+    | some d => if d.req then .error .required else callee ctx b 0   -- "cannot be rendered directly"
   | .forLoop x items body => concatM (items.map fun i => list chain callee ctx cur ((x, i) :: loc) body)
   | .ifc f body => if truthy loc ctx f then list chain callee ctx cur loc body else .ok []
   | .ext _ => .error .syntax
@@ -76,13 +80,6 @@ def renderChain (fuel : Nat) (chain : List Tpl) (vars : Vars) : Res :=
 
 /-! ## which hierarchies the documentation speaks about (used by the oracle to decide whether it may judge) -/
 
-/-- the first `extends` that is reached at top level (walking into `if` bodies whose flag is true) -/
-def firstLiveExt (vars : Vars) : List Piece → Option Target
-  | [] => none
-  | .ext t :: _ => some t
-  | .ifc f [.ext t] :: rest => if truthy [] vars f then some t else firstLiveExt vars rest
-  | _ :: rest => firstLiveExt vars rest
-
 /-- "The extends tag should be the first tag in the template": the template starts with `{% extends %}` or with
     `{% if flag %}{% extends %}{% endif %}` (the null-default fallback) -/
 def headTarget (vars : Vars) : List Piece → Option Target
@@ -103,10 +100,10 @@ end
 
 mutual
 /-- what may follow the `extends` of a child template in the hierarchies the theorems quantify over: anything but a
-    further `extends` and a top-level `for` (see finding `C04:child:block-in-toplevel-loop-rendered`) -/
+    further `extends` -/
 def quietP : Piece → Bool
   | .ext _ => false
-  | .forLoop _ _ _ => false
+  | .forLoop _ _ body => countExtL body == 0
   | .ifc _ body => quietL body
   | _ => true
 def quietL : List Piece → Bool
